@@ -9,7 +9,7 @@ oracle:         on the implementation alone: files in pairs numbered 1..K withou
                 each cell file parseable with the cells alive when written; one header; records at every 50th
                 iteration and the last; one row per living cell; as many fields as the header; id, type, area, volume,
                 target volume and pressure equal to the cell's getters at the printed precision."""
-import random, json, math, os
+import random, json, math, os, shutil
 import vlib, tissue
 from vlib import hx, unhx
 from checks.c08 import std_types, R
@@ -56,7 +56,7 @@ def gen_case(rng, tag, forced=None):
     p = tissue.params(dt=dt, damping=5e-10, T=T, S=S, lmin=7.5e-7 * 2, cut_adh=5e-7, cut_rep=5e-7, swap=0)
     string_stats = rng.random() < 0.4
     line = tissue.fmt_tissue(p, cts, cells) + " RUN 1 %d %s %d %d %s" % (rng.randrange(10 ** 6), tag, 1 if string_stats else 0, len(evs), " ".join("%d %d %s" % (a, b, hx(c)) for a, b, c in evs))
-    return dict(line=line, scen=scen, dt=dt, S=S, T=T, nc=nc, niter=niter, string=string_stats)
+    return dict(line=line, scen=scen, dt=dt, S=S, T=T, nc=nc, niter=niter, string=string_stats, tag=tag)
 
 
 def parse_out(out):
@@ -191,6 +191,9 @@ def oracle(c, its, end, cellfiles, facefiles, rows, colnames):
     return None
 
 
+RUN_TIMEOUT = 240      # seconds per run (a stable run of these sizes takes 1-20 s)
+
+
 def run(ck):
     ncase = 36 if ck.tier == "quick" else 600
     ck.cov["rule"] = ("real solver::run() on 1-3 icosphere cells for 3-160 iterations over generated (T, dt, S): S a multiple of dt, S = dt, S a few ulps above dt, non-commensurable ratios, T on and off the grid of time steps; scenarios steady / dividing at iteration 0 and later / removed at chosen iterations (incl. 49, 50, 51) / emptying population; file and in-memory statistics; non-trivial = runs with more than one file and a population change or S <= 1.01 dt")
@@ -207,17 +210,35 @@ def run(ck):
     from concurrent.futures import ThreadPoolExecutor
     def one(c):
         try:
-            p = vlib.run([impl], input=c["line"] + "\n", timeout=900, env={"OMP_NUM_THREADS": "1"})
+            p = vlib.run([impl], input=c["line"] + "\n", timeout=RUN_TIMEOUT, env={"OMP_NUM_THREADS": "1"})
             return p.returncode, p.stdout, p.stderr[-800:]
         except Exception as e:
             return -999, "", str(e)
     with ThreadPoolExecutor(vlib.NJOBS) as ex:
         res = list(ex.map(one, cases))
-    fails = []; broken = []; nontriv = 0; q = []; qi = []; parsed = {}; dist = {}
+    fails = []; broken = []; nontriv = 0; q = []; qi = []; parsed = {}; dist = {}; timeouts = []; aborted = {}
     for ci, (c, (rc_, out, err)) in enumerate(zip(cases, res)):
         dist[c["scen"]] = dist.get(c["scen"], 0) + 1
+        if rc_ == -999 and "timed out" in err:
+            # the dynamics of the generated tissue left the stable regime (a collapsing cell blows up and the refiner splits for
+            # minutes): nothing about the outputs can be concluded from the run, unless the files written so far already break the rule
+            import glob
+            nfiles = 0
+            for d in glob.glob(os.path.join(vlib.CACHE, "tmp", "run_%s_*" % c["tag"])):
+                nfiles = max(nfiles, len(glob.glob(os.path.join(d, "cell_data", "result_*.vtk"))))
+                shutil.rmtree(d, ignore_errors=True)
+            if nfiles > c["T"] / c["S"] + 2:
+                fails.append((ci, "file_count_within_one_of_T_over_S (%d cell files written before the run was stopped, T/S+1 = %.2f)" % (nfiles, c["T"] / c["S"] + 1))); continue
+            timeouts.append(ci); continue
         if rc_ != 0 or not out.startswith("ITS"):
             fails.append((ci, "run_completes (exit status %s: %s %s)" % (rc_, out[:200], err[-300:].replace("\n", " ")))); continue
+        endsec = out.split(" # END ")[1].split(" # ")[0].split() if " # END " in out else []
+        if len(endsec) >= 5 and endsec[4] != "-":
+            # the run was aborted by an exception: the property speaks of runs that reach T.  Instability of the generated dynamics
+            # (reported by the refiner or the geometry) is outside it; an exception of the output side means the run did not produce its outputs
+            if any(w in endsec[4].lower() for w in ("write", "writer", "file", "statistic", "folder", "directory")):
+                fails.append((ci, "run_completes (exception from the output side: %s)" % endsec[4][:200])); continue
+            aborted[endsec[4][:60]] = aborted.get(endsec[4][:60], 0) + 1; continue
         try:
             its, end, cellfiles, facefiles, rows = parse_out(out)
         except Exception as e:
@@ -280,6 +301,8 @@ def run(ck):
     ck.cov["distinct_nontrivial"] = nontriv
     ck.cov["traces_validated_against_impl"] = len(q) - len(broken)
     ck.notes["input_distribution"] = dist
+    ck.notes["runs_stopped_after_%d_s_without_conclusion" % RUN_TIMEOUT] = len(timeouts)
+    ck.notes["runs_aborted_by_an_exception_of_the_dynamics"] = aborted
     ck.sample(dict(scenario=cases[3]["scen"], dt=cases[3]["dt"], S=cases[3]["S"], T=cases[3]["T"]), limit=1)
     seen = set()
     for ci, f in fails:
